@@ -579,12 +579,13 @@ func (s *SecureChannel) readChunk() (*MessageChunk, error) {
 // the chunks received so far. A verbatim copy of an earlier chunk passes all
 // other security checks, so this is what keeps a recorded chunk from being
 // delivered a second time. The numbers must increase and may only wrap to a
-// value below 1024 at the end of the range (Part 6, 6.7.2.4).
+// value below 1024 at the end of the range (Part 6, 6.7.2.4). A number far
+// ahead of the last one is a chunk from before the wrap, not a successor.
 func (s *SecureChannel) checkSequenceNumber(n uint32) error {
 	last := s.rcvSequenceNumber
 	switch {
 	case !s.rcvSequenceNumberSet:
-	case n > last:
+	case n > last && n-last < math.MaxUint32/2:
 	case last >= math.MaxUint32-1024 && n < 1024:
 	default:
 		debug.Printf("uasc %d: sequence number %d does not follow %d", s.c.ID(), n, last)
